@@ -99,6 +99,8 @@ def exec_retry(case) -> Result:
             made[k] = ('val', f'v{k}')
             return made[k][1]
         exc = (Listed2 if oc.get('sub') else Listed)(f'l{k}') if oc['k'] == 'listed' else Unlisted(f'u{k}')
+        if oc.get('cause'):  # `raise X from Y`: only the type of X decides whether the attempt is retried
+            exc.__cause__ = (Listed if oc['cause'] == 'listed' else Unlisted)('the cause')
         made[k] = ('exc', exc)
         raise exc
 
@@ -216,7 +218,8 @@ class RetryFamily(Family):
             for k in range(retries + 1):
                 c = rng.choice(['ok', 'listed', 'listed', 'listed', 'unlisted', 'overrun'])
                 # (with timeout=None a very long attempt is simply a long attempt)
-                seq.append({'k': 'ok' if c == 'overrun' else c, 'd': (p['timeout'] or 30.0) + rng.choice([0.5, 3.0]) if c == 'overrun' else rng.choice([0.0, 0.01, 0.3]), 'sub': rng.random() < 0.3})
+                seq.append({'k': 'ok' if c == 'overrun' else c, 'd': (p['timeout'] or 30.0) + rng.choice([0.5, 3.0]) if c == 'overrun' else rng.choice([0.0, 0.01, 0.3]), 'sub': rng.random() < 0.3,
+                            'cause': rng.choice([None, None, 'listed', 'unlisted'])})
             i += 1
             yield {'family': self.name, 'i': i, 'p': p, 'seq': seq}
             starts, final, end = ref_timetable(p, seq)
@@ -383,7 +386,8 @@ def ref_semaphore(case):
             if state.get(i) != 'run':
                 continue
             state[i] = 'done'
-            out[i]['fate'] = 'raise' if c.get('raises') else 'ok'
+            cut = case.get('attempt_timeout') is not None and c['dur'] > case['attempt_timeout'] and not case.get('retries')
+            out[i]['fate'] = 'raise' if (c.get('raises') or cut) else 'ok'
             if out[i]['slot']:
                 _release(key, t, free, q, state, out, callers, ev, heapq, case)
         elif kind == 'semtimeout':
@@ -403,10 +407,14 @@ def ref_semaphore(case):
                 state[i] = 'done'
                 out[i]['fate'] = 'cancelled'
             elif state.get(i) == 'run':
-                state[i] = 'done'
+                # the body may need time to unwind (awaited clean-up in its except / finally): the slot is its until then
+                state[i] = 'unwinding'
                 out[i]['fate'] = 'cancelled'
-                if out[i]['slot']:
-                    _release(key, t, free, q, state, out, callers, ev, heapq, case)
+                heapq.heappush(ev, (t + c.get('cleanup', 0.0), 2, 'unwound', i))
+        elif kind == 'unwound':
+            state[i] = 'done'
+            if out[i]['slot']:
+                _release(key, t, free, q, state, out, callers, ev, heapq, case)
     return out
 
 
@@ -415,6 +423,9 @@ def _hold(case, c) -> float:
     r = case.get('retries', 0)
     if c.get('raises') and r:
         return (r + 1) * c['dur'] + r * case.get('wait', 0)
+    at = case.get('attempt_timeout')
+    if at is not None and c['dur'] > at:
+        return at + c.get('cleanup', 0.0)  # the attempt is cut off, the body unwinds (awaited clean-up), then TimeoutError propagates
     return c['dur']
 
 
@@ -456,7 +467,7 @@ def exec_sem(case) -> Result:
     probe_state = {'started': [], 'hold': None}
 
     def deco(scope):
-        return retry(wait=case.get('wait', 0), retries=case.get('retries', 0), timeout=1000.0, semaphore_limit=L, semaphore_name=uid, semaphore_lax=lax, semaphore_scope=scope, semaphore_timeout=case['sem_timeout'])
+        return retry(wait=case.get('wait', 0), retries=case.get('retries', 0), timeout=case.get('attempt_timeout') or 1000.0, semaphore_limit=L, semaphore_name=uid, semaphore_lax=lax, semaphore_scope=scope, semaphore_timeout=case['sem_timeout'])
 
     async def body(i):
         c = callers[i]
@@ -477,6 +488,10 @@ def exec_sem(case) -> Result:
             if c.get('raises'):
                 raise Unlisted(f'c{i}')
             return i
+        except asyncio.CancelledError:
+            if c.get('cleanup'):
+                await asyncio.sleep(c['cleanup'])  # awaited clean-up: this execution is still in progress
+            raise
         finally:
             inprog[key] -= 1
             obs[i]['exit'] = loop.time()
@@ -680,6 +695,8 @@ class SemFamily(Family):
                 c = {'scope': sc, 'at': round(rng.choice([0, 0, 0.1, 0.3, 1.0]) + k * 1e-3, 6), 'dur': round(rng.choice([0.0, 0.2, 0.7, 3.0]) + k * 1.7e-4, 6)}
                 if rng.random() < 0.15:
                     c['raises'] = True
+                if rng.random() < 0.25:
+                    c['cleanup'] = round(rng.choice([0.05, 0.3]) + k * 1.3e-4, 6)  # time the body needs to unwind when cancelled
                 callers.append(c)
             if j % 7 == 3:
                 # a process with many decorated instances: 70 'self'-scoped keys are created while another scope is partly held
@@ -693,9 +710,13 @@ class SemFamily(Family):
                 callers = callers + extra
                 ncall = len(callers)
             base = {'family': self.name, 'limit': L, 'lax': lax, 'sem_timeout': sem_to, 'callers': callers}
+            if j % 3 == 2 and rng.random() < 0.5:
+                base['attempt_timeout'] = 0.45  # bodies of 0.7 s and 3 s are cut off (and unwind), 0.2 s ones are not
             if j % 3 == 1:
                 base['retries'] = rng.choice([1, 2])
                 base['wait'] = rng.choice([0.0, 0.033, 0.4])
+                for c in callers:
+                    c.pop('cleanup', None)  # (a caller may be cancelled between two attempts, where there is no body to unwind)
             i += 1
             yield dict(base, i=i)
             # cancellation of one caller at enumerated instants
@@ -706,6 +727,8 @@ class SemFamily(Family):
                 pts.update([round(a + 3.3e-5, 7), round((a + b) / 2 + 1.1e-5, 7)])
             pts = sorted(pts)
             k_pts = 4 if tier == 'quick' else 12
+            if 'attempt_timeout' in base:
+                pts = []  # (a caller cancelled while a cut-off attempt of its own is unwinding has no simple reference)
             for t in (rng.sample(pts, k_pts) if len(pts) > k_pts else pts):
                 victim = rng.randrange(ncall)
                 if t <= callers[victim]['at']:
@@ -715,13 +738,14 @@ class SemFamily(Family):
                 i += 1
                 yield dict(base, i=i, callers=cs)
             # cancellation a few loop iterations after the victim's own acquisition instant (between 'has the slot' and 'body runs')
-            if j % 2 == 0:
+            if j % 2 == 0 and 'attempt_timeout' not in base:
                 got = [q for q, r in ref.items() if r['enter'] is not None and r['slot'] and callers[q]['dur'] >= 0.1]
                 if got:
                     victim = rng.choice(got)
                     cs = [dict(c) for c in callers]
                     cs[victim]['cancel_at'] = ref[victim]['enter']
                     cs[victim]['cancel_steps'] = rng.choice([1, 2, 3, 4, 6, 9])
+                    cs[victim].pop('cleanup', None)  # (whether the body was reached at all is open here, so nothing to unwind)
                     i += 1
                     yield dict(base, i=i, callers=cs, probe_due=rng.random() < 0.5)
             # successive event loops in one process (same semaphore names)
